@@ -153,6 +153,21 @@ def h_spline(rec):
     return False, f"not reproduced on the real code ({tried}); boundary-directed spline grid passed"
 
 
+def _grid_handler(fn_name, label):
+    def h(rec):
+        if os.environ.get("FJVC_REPLAY_SKIP_GRID") == "1":
+            return False, f"the {label} grid already passed in this run"
+        fails = getattr(rt, fn_name)("quick", first_only=True)
+        if fails:
+            return True, fails[0]["what"]
+        return False, f"abstract counter-model (uninterpreted children) has no direct concretisation; the bounded {label} grid on real objects passed"
+    return h
+
+
+HANDLERS["transformed"] = _grid_handler("rt_c03", "C03 change-of-variables")
+HANDLERS["merge_transforms"] = _grid_handler("rt_c03", "C03 change-of-variables")
+
+
 def main(path):
     with open(path) as fh:
         rec = json.load(fh)
